@@ -32,6 +32,7 @@ def dispatch (line : String) : String :=
     | some "concat" => runC11 fields obs
     | some "session" => runC05 fields obs
     | some "steps" => runC19 fields obs
+    | some "resolve" => runC19 fields obs
     | some "prec" => runC02 fields obs
     | some "lit" => runC13 fields obs
     | some "set" => S14.runC14 fields obs
